@@ -131,6 +131,33 @@ def run(ctx):
                             {"site": "Flatten", "what": f"chain-{how}-roundtrip"}, observed=bad,
                             required={k: w for k, w in want.items() if k in bad})
                 break
+    # state surviving between constructions: a node built earlier from an equal shape (tuple / list / ndarray / the
+    # same argument object) has its declared shape edited in place; a Flatten built afterwards from the shape as given
+    # must still declare exactly the flattening of what it was given
+    for _ in range(ctx.n(40, 200)):
+        shp = gen.shape(rng, rank=rng.randrange(2, 5), lo=1, hi=5)
+        form = rng.choice(["tuple", "list", "ndarray", "same-object"])
+        mk = {"tuple": lambda: tuple(shp), "list": lambda: list(shp), "ndarray": lambda: np.array(shp),
+              "same-object": None}[form]
+        shared = tuple(shp)
+        arg = (lambda: shared) if mk is None else mk
+        r = len(shp)
+        a = rng.randrange(0, r); b = rng.randrange(a, r)
+        case = {"op": "flatten_after_edit", "shape": shp, "form": form, "s": a, "e": b}
+        ctx.case(case); ctx.count("flatten_after_inplace_edit")
+        try:
+            first = rng.choice([lambda: nir.Input(arg()), lambda: nir.Flatten(arg(), 0, 0), lambda: nir.Output(arg())])()
+            t = first.input_type if not isinstance(first, nir.Output) else first.output_type
+            np.asarray(next(iter(t.values())))[0] += 4           # the consumer edits the declared shape in place
+            f = nir.Flatten(arg(), a, b)
+            got_in, got = _ints(f.input_type["input"]), _ints(f.output_type["output"])
+        except Exception as e:  # noqa
+            got_in, got = None, f"raised {type(e).__name__}"
+        want = ref_flatten(shp, a, b)
+        if got_in != shp or got != want:
+            ctx.violate(case, "a Flatten built after an earlier node's shape array was edited in place does not declare the "
+                        "flattening of the shape it was given", {"site": "Flatten", "what": "state-between-constructions"},
+                        observed={"in": got_in, "out": got}, required={"in": shp, "out": want})
 
 
 def _ints(v):
